@@ -47,7 +47,7 @@ def run(tier, seed, replay=None):
                        'so they behave identically on finite doubles (NaN excluded by `valid`)',
                        'the strategy layer is an arbitrary function `react` in the theorem; in correspondence runs it is a scripted family']
     fails = kernels.validate(res, ['candle', 'backtest'], seed, 300 if tier == 'quick' else 3000)
-    proof_ok = C.standard_proof_step(res, 'Props.C08', THEOREMS, ['theories/Props/C08.vo', 'theories/Run/C08Run.vo'])
+    proof_ok = C.standard_proof_step(res, 'Props.C08', THEOREMS, ['theories/Props/C08.vo', 'theories/Run/C08Run.vo', 'theories/Run/C02Run.vo'])
 
     C.use_repo()
     import numpy as np
@@ -166,6 +166,17 @@ def run(tier, seed, replay=None):
     res.oblige('correspondence: Model/Match.sort_exec = _sort_execution_orders', not bad['sort_model'],
                str([sort_cases[i] for i in bad['sort_model'][:3]]))
     n = len(split_cases) + len(fix_cases) + len(sort_cases)
+    # the match loop itself: the theorems C08_first_fill_is_first_touch / C08_fills_follow_path are about Model/Match.match_minute, which is tied to
+    # _simulate_price_change_effect (candidate selection, the order of the candidates, the re-sort after every fill, the split) by this correspondence
+    from . import c02 as K2
+    n_min, m_err, m_bad, m_cerr = K2.match_loop_correspondence(rng, 150 if tier == 'quick' else 2500, 'c08_m')
+    res.oblige('match-loop case files evaluated', not m_cerr, '\n'.join(m_cerr[:2]))
+    res.oblige('scripted minutes ran on the real matcher', not m_err, json.dumps(m_err[:2], default=str)[:600])
+    res.oblige('correspondence: Model/Match.match_minute with scripted reactions = _simulate_price_change_effect (fills in order, partial candles, orders left)',
+               not m_bad, json.dumps(m_bad[:2], default=str)[:900])
+    res.extra['scripted_minutes_on_the_real_match_loop'] = n_min
+    if m_bad:
+        res.violation('match_loop_differs_from_the_path_model', 'the real per-minute match loop fills other orders, or in another order, than the loop that follows the price path', m_bad[0])
     res.add_cases(n, len({str(c[:2]) for c in split_cases}) + len({str(c[:2]) for c in sort_cases}),
                   [{'split': split_cases[0]}, {'sort': sort_cases[0]}],
                   f'every valid (o,c,h,l) on a {n_lat}-point lattice x every lattice/half-lattice price (ordinal arrangements incl. ties), '
